@@ -8,19 +8,13 @@ open List
 
 variable {n : ℕ}
 
-/-- the cluster mask `CIJp = (template >= mx_lvl - sz_cl)` as the model computes it -/
-def clusterMask (n mx szcl : Nat) : AMat Int n :=
-  AMat.ofFn fun i j => b2i (decide ((evenTemplate n mx).get i j ≥ Int.ofNat mx - (Int.ofNat szcl - 1)))
+/-- membership in the cluster mask `CIJp = (T >= mx_lvl - sz_cl)` (`sz_cl` already decremented) -/
+def inCluster {n} (T : AMat Int n) (mx szcl : Nat) (p : Cell n) : Bool :=
+  decide (T.get p.1 p.2 ≥ Int.ofNat mx - (Int.ofNat szcl - 1))
 
-def inCluster (n mx szcl : Nat) (p : Cell n) : Bool :=
-  decide ((evenTemplate n mx).get p.1 p.2 ≥ Int.ofNat mx - (Int.ofNat szcl - 1))
-
-theorem clusterMask_val (mx szcl : Nat) (p : Cell n) :
-    cellVal (clusterMask n mx szcl) p = if inCluster n mx szcl p then 1 else 0 := by
-  simp [cellVal, clusterMask, inCluster, b2i]
-
-theorem inCluster_diag (mx szcl : Nat) (h : szcl ≤ mx) (i : Fin n) : inCluster n mx szcl (i, i) = false := by
-  simp only [inCluster, evenTemplate, AMat.get_ofFn, if_true, decide_eq_false_iff_not, Int.ofNat_eq_natCast]
+theorem inCluster_diag (T : AMat Int n) (hT : ∀ i, T.get i i = 0) (mx szcl : Nat) (h : szcl ≤ mx) (i : Fin n) :
+    inCluster T mx szcl (i, i) = false := by
+  simp only [inCluster, hT i, decide_eq_false_iff_not, Int.ofNat_eq_natCast]
   omega
 
 theorem countP_and_split (a b : Cell n → Bool) (l : List (Cell n)) :
@@ -41,16 +35,16 @@ theorem countP_or_excl (a c : Cell n → Bool) (l : List (Cell n)) (hex : ∀ p,
     cases ha : a p <;> cases hc : c p <;> simp_all <;> omega
 
 /-- what `makeevenCIJ` returns for a feasible K -/
-theorem evenCIJ_core (mx k szcl : Nat) (ds : List Nat) {C : AMat Int n} {rest : List Nat}
-    (h : evenCIJ n mx k szcl ds = .ok (C, rest)) (hsz : szcl ≤ mx)
-    (hk1 : ((allCells n).countP (inCluster n mx szcl) : Int) ≤ k) (hk2 : k ≤ n * (n - 1)) :
+theorem evenFill_core (T : AMat Int n) (hT : ∀ i, T.get i i = 0) (mx k szcl : Nat) (ds : List Nat)
+    {C : AMat Int n} {rest : List Nat}
+    (h : evenFill T mx k szcl ds = .ok (C, rest)) (hsz : szcl ≤ mx)
+    (hk1 : ((allCells n).countP (inCluster T mx szcl) : Int) ≤ k) (hk2 : k ≤ n * (n - 1)) :
     (∀ p, cellVal C p = 0 ∨ cellVal C p = 1) ∧ (∀ i, cellVal C (i, i) = 0) ∧
-    (∀ p, inCluster n mx szcl p = true → cellVal C p = 1) ∧ matSum C = k := by
-  unfold evenCIJ at h
-  split at h
-  · simp at h
-  · have hP : ∀ p, cellVal (AMat.ofFn fun i j => b2i (decide ((evenTemplate n mx).get i j ≥ Int.ofNat mx - (Int.ofNat szcl - 1))) : AMat Int n) p
-        = if inCluster n mx szcl p then 1 else 0 := clusterMask_val mx szcl
+    (∀ p, inCluster T mx szcl p = true → cellVal C p = 1) ∧ matSum C = k := by
+  unfold evenFill at h
+  · have hP : ∀ p, cellVal (AMat.ofFn fun i j => b2i (decide (T.get i j ≥ Int.ofNat mx - (Int.ofNat szcl - 1))) : AMat Int n) p
+        = if inCluster T mx szcl p then 1 else 0 := by
+      intro p; simp [cellVal, inCluster, b2i]
     have hcnt := matSum_ind _ _ hP
     simp only at h
     rw [hcnt] at h
@@ -68,9 +62,9 @@ theorem evenCIJ_core (mx k szcl : Nat) (ds : List Nat) {C : AMat Int n} {rest : 
           -- the free cells
           set free : List (Cell n) := (List.finRange n).flatMap fun i =>
             ((List.finRange n).filter fun j =>
-              ((AMat.ofFn fun i j => b2i (decide ((evenTemplate n mx).get i j ≥ Int.ofNat mx - (Int.ofNat szcl - 1))) : AMat Int n).get i j
+              ((AMat.ofFn fun i j => b2i (decide (T.get i j ≥ Int.ofNat mx - (Int.ofNat szcl - 1))) : AMat Int n).get i j
                 + b2i (decide (i = j))) == 0).map fun j => (i, j) with hfree
-          have hfree_eq : free = (allCells n).filter fun p => !inCluster n mx szcl p && decide (p.1 ≠ p.2) := by
+          have hfree_eq : free = (allCells n).filter fun p => !inCluster T mx szcl p && decide (p.1 ≠ p.2) := by
             rw [hfree]
             unfold allCells List.product
             rw [List.filter_flatMap]
@@ -85,49 +79,49 @@ theorem evenCIJ_core (mx k szcl : Nat) (ds : List Nat) {C : AMat Int n} {rest : 
             rw [this]
             by_cases h2 : i = j
             · subst h2; simp only [b2i, decide_true, if_true]; split_ifs <;> simp
-            · by_cases h1 : inCluster n mx szcl (i, j) = true <;> simp [h1, h2, b2i]
+            · by_cases h1 : inCluster T mx szcl (i, j) = true <;> simp [h1, h2, b2i]
           have hperm' : isPermOfRange (ds.take free.length) free.length = true := by simpa using hperm
           obtain ⟨hpl, hplt, hpnd⟩ := isPermOfRange_spec hperm'
           have hfree_nd : free.Nodup := by rw [hfree_eq]; exact allCells_nodup.filter _
-          set L := choose free (ds.take free.length) (Int.ofNat k - ((allCells n).countP (inCluster n mx szcl) : Int)).toNat with hL
+          set L := choose free (ds.take free.length) (Int.ofNat k - ((allCells n).countP (inCluster T mx szcl) : Int)).toNat with hL
           have hLnd : L.Nodup := choose_nodup _ _ _ hfree_nd hpnd
-          have hLsub : ∀ p ∈ L, inCluster n mx szcl p = false ∧ p.1 ≠ p.2 := by
+          have hLsub : ∀ p ∈ L, inCluster T mx szcl p = false ∧ p.1 ≠ p.2 := by
             intro p hp
             have := mem_choose _ _ _ _ hp
             rw [hfree_eq, List.mem_filter] at this
             simpa using this.2
           -- size of the free list
           have hsplit := countP_offdiag (n := n)
-          have hfree_len : free.length + (allCells n).countP (inCluster n mx szcl) = n * n - n := by
+          have hfree_len : free.length + (allCells n).countP (inCluster T mx szcl) = n * n - n := by
             rw [hfree_eq, ← List.countP_eq_length_filter, ← hsplit]
-            have : (allCells n).countP (inCluster n mx szcl)
-                = (allCells n).countP (fun p => inCluster n mx szcl p && decide (p.1 ≠ p.2)) := by
+            have : (allCells n).countP (inCluster T mx szcl)
+                = (allCells n).countP (fun p => inCluster T mx szcl p && decide (p.1 ≠ p.2)) := by
               apply List.countP_congr
               rintro ⟨i, j⟩ _
               by_cases hij : i = j
-              · subst hij; simp [inCluster_diag mx szcl hsz i]
+              · subst hij; simp [inCluster_diag T hT mx szcl hsz i]
               · simp [hij]
             rw [this]
-            exact countP_and_split (inCluster n mx szcl) (fun p => decide (p.1 ≠ p.2)) (allCells n)
-          have hLlen : (L.length : Int) = k - ((allCells n).countP (inCluster n mx szcl) : Int) := by
+            exact countP_and_split (inCluster T mx szcl) (fun p => decide (p.1 ≠ p.2)) (allCells n)
+          have hLlen : (L.length : Int) = k - ((allCells n).countP (inCluster T mx szcl) : Int) := by
             rw [hL, choose_length _ _ _ (fun r hr => hplt r hr), hpl]
             have : n * n - n = n * (n - 1) := by rw [Nat.mul_sub, Nat.mul_one]
             simp only [Int.ofNat_eq_natCast]
             omega
-          have hval : ∀ p, cellVal C p = if inCluster n mx szcl p || decide (p ∈ L) then 1 else 0 := by
+          have hval : ∀ p, cellVal C p = if inCluster T mx szcl p || decide (p ∈ L) then 1 else 0 := by
             intro p
             rw [← hC, writeOnes_val, hP]
-            by_cases h1 : p ∈ L <;> by_cases h2 : inCluster n mx szcl p = true <;> simp [h1, h2]
+            by_cases h1 : p ∈ L <;> by_cases h2 : inCluster T mx szcl p = true <;> simp [h1, h2]
           refine ⟨fun p => ?_, fun i => ?_, fun p hp => ?_, ?_⟩
           · rw [hval]; split_ifs <;> simp
           · rw [hval]
             have : (i, i) ∉ L := fun hm => (hLsub _ hm).2 rfl
-            simp [inCluster_diag mx szcl hsz i, this]
+            simp [inCluster_diag T hT mx szcl hsz i, this]
           · rw [hval]; simp [hp]
           · rw [matSum_ind _ _ hval]
-            have : (allCells n).countP (fun p => inCluster n mx szcl p || decide (p ∈ L))
-                = (allCells n).countP (inCluster n mx szcl) + (allCells n).countP (fun p => decide (p ∈ L)) := by
-              have hex : ∀ p, ¬ (inCluster n mx szcl p = true ∧ p ∈ L) := fun p ⟨h1, h2⟩ => by
+            have : (allCells n).countP (fun p => inCluster T mx szcl p || decide (p ∈ L))
+                = (allCells n).countP (inCluster T mx szcl) + (allCells n).countP (fun p => decide (p ∈ L)) := by
+              have hex : ∀ p, ¬ (inCluster T mx szcl p = true ∧ p ∈ L) := fun p ⟨h1, h2⟩ => by
                 have := (hLsub p h2).1; rw [h1] at this; exact Bool.noConfusion this
               exact countP_or_excl _ _ _ (fun p hp => hex p ⟨hp.1, by simpa using hp.2⟩)
             rw [this, countP_mem_nodup L hLnd]
